@@ -114,6 +114,46 @@ func TestC02(t *testing.T) {
 			}
 			c.Ev.MarkExhaustive(fmt.Sprintf("every binary operator (%d) x every ordered pair of %d operand producers", len(bn.BinOpList), len(c02Producers)))
 		})
+		// "+" with a string splices the number exactly as দেখাও prints it, on either side and between two
+		// strings (model-free: the program's own first line is the reference)
+		c.Sub("concat-renders-as-print", func(s *Sub) {
+			if c.Shard != 0 {
+				return
+			}
+			P := bn.KwPrint
+			extra := []producer{{"(~(1 << 62))", "int", false}, {"(~(1 << 63))", "int", false}, {"((1 << 53) | 1)", "int", false}, {"(1 << 64)", "int", false}, {"(0 - (1 << 62) | 1)", "int", false},
+				{"1000000", "number", false}, {"999999", "number", false}, {"1e21", "number", false}, {"(1 / 3)", "number", false}, {"(10 ** 21)", "number", false}, {"(10 ** -7)", "number", false}}
+			for _, p := range append(append([]producer{}, c02Producers...), extra...) {
+				if p.kind != "number" && p.kind != "int" {
+					continue
+				}
+				if strings.Contains(p.text, "e2") {
+					continue // exponent notation is not a literal form of the language
+				}
+				src := c02Prelude + P + " " + p.text + ";\n" + P + " " + p.text + " + \"\";\n" + P + " \"\" + " + p.text + ";\n" + P + " " + p.text + " + \"|\";\n" + P + " \"|\" + " + p.text + ";\n" +
+					P + " \"<\" + " + p.text + " + \">\";\n" + bn.KwVar + " held = " + p.text + ";\n" + P + " held + \"|\";\n" + P + " \"|\" + held;\n" + P + " [held + \"|\", \"|\" + held][0];\n"
+				r := c.RunB(src, "")
+				c.Ev.EnumCase("concat-renders-as-print", true, func() string { return src }, "kind-"+p.kind)
+				ln := strings.Split(strings.TrimSuffix(r.Out, "\n"), "\n")
+				bad := ""
+				if r.Class() != "clean" || len(ln) != 9 {
+					bad = "the program must print nine lines and end normally"
+				} else {
+					v := ln[0]
+					want := []string{v, v, v, v + "|", "|" + v, "<" + v + ">", v + "|", "|" + v, v + "|"}
+					for i := range want {
+						if ln[i] != want[i] {
+							bad = fmt.Sprintf("line %d is %q, expected %q (the number prints as %q)", i+1, ln[i], want[i], v)
+							break
+						}
+					}
+				}
+				if bad != "" {
+					s.Violation(Replay{Check: "concat", Sig: "concat-" + p.kind, Source: src, Note: bad, Observed: r.Describe()})
+				}
+			}
+			c.Ev.MarkExhaustive("every numeric operand producer x eight concatenation forms against the number's own printed form")
+		})
 		c.Sub("matrix-unary", func(s *Sub) {
 			if c.Shard != 0 {
 				return
